@@ -129,6 +129,9 @@ func commandLine(c cmd.Command) (fresh cmd.Command, args []string, ok bool) {
 // respellBases rewrites, for half of the cases (chosen by the case's salt), a local
 // base directory into another spelling of the same directory - a trailing slash, a doubled separator, a "."
 // component - as a user types them. URLs are left alone.
+// noChdir: this process serves a base directory given relative to its working directory, which therefore stays put.
+var noChdir bool
+
 func respellBases(c cmd.Command) cmd.Command {
 	v0 := reflect.ValueOf(c)
 	if v0.Kind() != reflect.Ptr || v0.Elem().Kind() != reflect.Struct {
@@ -148,7 +151,7 @@ func respellBases(c cmd.Command) cmd.Command {
 			continue
 		}
 		i := strings.LastIndexByte(p, '/')
-		if name == "SrcBase" && i > 0 {
+		if name == "SrcBase" && i > 0 && !noChdir {
 			switch (caseSalt() / 11) % 10 {
 			case 0, 1:
 				// a path relative to the working directory (runCommand restores the directory afterwards)
